@@ -671,7 +671,7 @@ func runPipelines(r *hx.Run, rnd *hx.Rand, cfg hx.Config) {
 		if p.genStored != nil && !r.Stop() {
 			// the wrapper that stores: only its trailing checksum protects the content
 			r.Count("pipe-stored:" + p.name)
-			sweepPipeline(r, p, p.genStored(rnd, 1+rnd.Intn(2)), 100, rnd.Fork(), cfg, 2)
+			sweepPipeline(r, p, p.genStored(rnd, 1+rnd.Intn(2)), 100, rnd.Fork(), cfg, 3)
 		}
 	}
 }
